@@ -4,6 +4,7 @@ import (
 	"bufio"
 	"encoding/json"
 	"fmt"
+	"net"
 	"os"
 	"path/filepath"
 	"sort"
@@ -49,8 +50,11 @@ type Obs struct {
 	Msg      string `json:"msg"`
 	Alive    bool   `json:"alive"`
 	S        int64  `json:"s"`
+	SRun     int64  `json:"srun"`
 	// informational (drift / replay), not judged
 	Jit     int64  `json:"jit"`
+	Gap     int64  `json:"gap"` // longest silence of the helper between two stamps (it beats every 5 ms)
+	Beats   int    `json:"beats"`
 	SigName string `json:"signame"`
 	Pid     int    `json:"pid"`
 	Group   int    `json:"group"`
@@ -193,14 +197,11 @@ func (j *jitterMon) maxOver(from, to int64) int64 {
 	return (m + 999) / 1000
 }
 
-// spawnBaseline times n trivial runs of the helper (start to exit), in ms.
-func spawnBaseline(self, dir string, n int) (max int64, all []int64) {
-	t0file := filepath.Join(dir, "t0")
-	os.WriteFile(t0file, []byte(strconv.FormatInt(monoUS(), 10)), 0o644)
+// spawnBaseline times n trivial runs of this binary (start to exit), in ms.
+func spawnBaseline(self string, n int) (max int64, all []int64) {
 	for i := 0; i < n; i++ {
 		a := monoUS()
-		p, err := os.StartProcess(self, []string{self, "child", "-log", filepath.Join(dir, "log"), "-t0file", t0file, "-x", "0"},
-			&os.ProcAttr{Files: []*os.File{nil, nil, os.Stderr}})
+		p, err := os.StartProcess(self, []string{self, "noop"}, &os.ProcAttr{Files: []*os.File{nil, nil, os.Stderr}})
 		if err != nil {
 			vutil.Fatalf("cannot start helper: %v", err)
 		}
@@ -257,56 +258,123 @@ func classify(log, script string) (msg, flags string) {
 
 type childLog struct {
 	start, sig, selfexit, last int64
+	gap                        int64 // longest silence between two stamps (ms)
+	beats                      int
 	pid                        int
 	signame                    string
 	raw                        string
+	closed                     bool // the helper's connection reached EOF: nothing more will come
 }
 
-func readChildLog(path string) childLog {
-	c := childLog{start: -1, sig: -1, selfexit: -1, last: -1}
-	f, err := os.Open(path)
+// collector receives the helpers' stamps over a unix socket.
+type collector struct {
+	mu   sync.Mutex
+	t0   map[int]int64 // case id -> monoUS at which its RunT call was made
+	logs map[int]*childLog
+	ln   net.Listener
+	path string
+}
+
+func newCollector(path string) *collector {
+	ln, err := net.Listen("unix", path)
 	if err != nil {
-		return c
+		vutil.Fatalf("listen %s: %v", path, err)
 	}
-	defer f.Close()
-	sc := bufio.NewScanner(f)
-	for sc.Scan() {
-		if len(c.raw) < 300 && !strings.HasPrefix(sc.Text(), "beat") {
-			c.raw += sc.Text() + ";"
+	c := &collector{t0: map[int]int64{}, logs: map[int]*childLog{}, ln: ln, path: path}
+	go func() {
+		for {
+			conn, err := ln.Accept()
+			if err != nil {
+				return
+			}
+			go c.serve(conn)
 		}
+	}()
+	return c
+}
+
+func (c *collector) serve(conn net.Conn) {
+	var mine *childLog
+	defer func() {
+		conn.Close()
+		if mine != nil {
+			c.mu.Lock()
+			mine.closed = true
+			c.mu.Unlock()
+		}
+	}()
+	sc := bufio.NewScanner(conn)
+	if !sc.Scan() {
+		return
+	}
+	h := strings.Fields(sc.Text())
+	if len(h) != 3 || h[0] != "hello" {
+		return
+	}
+	id, _ := strconv.Atoi(h[1])
+	pid, _ := strconv.Atoi(h[2])
+	c.mu.Lock()
+	t0, ok := c.t0[id]
+	cl := &childLog{start: -1, sig: -1, selfexit: -1, last: -1, pid: pid}
+	if ok {
+		c.logs[id] = cl
+		mine = cl
+	}
+	c.mu.Unlock()
+	if !ok {
+		return
+	}
+	fmt.Fprintf(conn, "t0 %d\n", t0)
+	for sc.Scan() {
 		p := strings.Fields(sc.Text())
 		if len(p) < 3 {
-			continue // a line cut short by SIGKILL
+			continue
 		}
 		t, err := strconv.ParseInt(p[1], 10, 64)
 		if err != nil {
 			continue
 		}
-		if t > c.last {
-			c.last = t
+		c.mu.Lock()
+		if cl.last >= 0 && t-cl.last > cl.gap {
+			cl.gap = t - cl.last
+		}
+		if t > cl.last {
+			cl.last = t
 		}
 		switch p[0] {
 		case "start":
-			c.start = t
-			c.pid, _ = strconv.Atoi(p[2])
+			cl.start = t
+		case "beat":
+			cl.beats++
 		case "sig":
-			if c.sig < 0 {
-				c.sig = t
-				c.signame = p[2]
+			if cl.sig < 0 {
+				cl.sig = t
+				cl.signame = p[2]
 			}
 		case "exit":
-			c.selfexit = t
+			cl.selfexit = t
 		}
+		if p[0] != "beat" && len(cl.raw) < 300 {
+			cl.raw += sc.Text() + ";"
+		}
+		c.mu.Unlock()
 	}
-	return c
 }
 
-func runGroup(g group, self, work string, jm *jitterMon, spawnMax int64, smin int, tw *vutil.NDJSONWriter, res *vutil.Result) {
+func (c *collector) get(id int) childLog {
+	c.mu.Lock()
+	defer c.mu.Unlock()
+	if cl, ok := c.logs[id]; ok {
+		return *cl
+	}
+	return childLog{start: -1, sig: -1, selfexit: -1, last: -1}
+}
+
+func runGroup(g group, self, work string, col *collector, jm *jitterMon, spawnMax int64, smin int, tw *vutil.NDJSONWriter, res *vutil.Result) {
 	dir := filepath.Join(work, fmt.Sprintf("g%d", g.id))
 	if err := os.MkdirAll(dir, 0o755); err != nil {
 		vutil.Fatalf("mkdir: %v", err)
 	}
-	t0file := filepath.Join(dir, "t0")
 	var files []string
 	names := make([]string, len(g.cases))
 	for i, c := range g.cases {
@@ -315,8 +383,8 @@ func runGroup(g group, self, work string, jm *jitterMon, spawnMax int64, smin in
 		if !c.OK {
 			status = 1
 		}
-		line := fmt.Sprintf("exec %s child -log %s -t0file %s -x %d -onint %s -status %d\n",
-			self, filepath.Join(dir, names[i]+".log"), t0file, c.X, c.OnInt, status)
+		line := fmt.Sprintf("exec %s child -sock %s -id %d -x %d -onint %s -status %d\n",
+			self, col.path, c.ID, c.X, c.OnInt, status)
 		if c.Neg {
 			line = "! " + line
 		}
@@ -331,10 +399,11 @@ func runGroup(g group, self, work string, jm *jitterMon, spawnMax int64, smin in
 
 	// ---- the call under observation ----
 	t0 := monoUS()
-	if err := os.WriteFile(t0file, []byte(strconv.FormatInt(t0, 10)), 0o644); err != nil {
-		vutil.Fatalf("write t0: %v", err)
+	col.mu.Lock()
+	for _, c := range g.cases {
+		col.t0[c.ID] = t0
 	}
-	// D counts from t0; whatever the file write took is taken off the distance
+	col.mu.Unlock()
 	deadline := time.Now().Add(time.Duration(g.D)*time.Millisecond - time.Duration(monoUS()-t0)*time.Microsecond)
 	runTdone := make(chan struct{})
 	go func() {
@@ -362,23 +431,55 @@ func runGroup(g group, self, work string, jm *jitterMon, spawnMax int64, smin in
 	}
 	rel := func(us int64) int64 { return (us - t0) / 1000 }
 
-	jit := jm.maxOver(t0, runDone)
-	slack := int64(smin) + 3*jit + spawnMax
-	// let a straggling process table entry settle before looking for survivors
-	time.Sleep(20 * time.Millisecond)
+	// the slack of an observation covers the delays measured while it was being taken: up to the end of its own
+	// subtest (srun: up to the end of the whole run), never beyond D + 1 s (a hung run is not "busy", it is hung)
+	capUS := t0 + (g.D+1000)*1000
+	window := func(end int64) (jit, slack int64) {
+		if end <= 0 || end > capUS {
+			end = capUS
+		}
+		jit = jm.maxOver(t0, end)
+		return jit, int64(smin) + 3*jit + spawnMax
+	}
+	_, srun := window(runDone)
+	// let the collector drain what the helpers sent before they died (their connections reach EOF),
+	// and a straggling process table entry settle before looking for survivors
+	for wait := 0; wait < 60; wait++ {
+		time.Sleep(10 * time.Millisecond)
+		open := 0
+		col.mu.Lock()
+		for _, c := range g.cases {
+			if cl, ok := col.logs[c.ID]; ok && !cl.closed {
+				open++
+			}
+		}
+		col.mu.Unlock()
+		if open == 0 {
+			break
+		}
+	}
 	for i, c := range g.cases {
-		cl := readChildLog(filepath.Join(dir, names[i]+".log"))
+		cl := col.get(c.ID)
+		root.mu.Lock()
 		st := root.subs[names[i]]
+		root.mu.Unlock()
 		o := Obs{ID: c.ID, Label: c.Label, D: g.D, X: c.X, OnInt: c.OnInt, OK: c.OK, Neg: c.Neg,
 			Start: cl.start, Sig: cl.sig, SelfExit: cl.selfexit, Last: cl.last, RunDone: rel(runDone),
-			S: slack, Jit: jit, CLog: cl.raw, SigName: cl.signame, Pid: cl.pid, Group: g.id, Verdict: "none", Msg: "none", Done: -1}
+			SRun: srun, Gap: cl.gap, Beats: cl.beats, CLog: cl.raw, SigName: cl.signame, Pid: cl.pid, Group: g.id, Verdict: "none", Msg: "none", Done: -1}
 		if o.SigName == "" {
 			o.SigName = "-"
 		}
-		if cl.pid > 0 && stillOurs(cl.pid, filepath.Join(dir, names[i]+".log")) {
+		if cl.pid > 0 && stillOurs(cl.pid, col.path, c.ID) {
 			o.Alive = true
 			res.Count("children_alive_after_run", 1)
 		}
+		var end int64
+		if st != nil {
+			st.mu.Lock()
+			end = st.doneAt
+			st.mu.Unlock()
+		}
+		o.Jit, o.S = window(end)
 		if st == nil {
 			o.Hung = true
 			o.Log = "subtest never started"
@@ -396,10 +497,10 @@ func runGroup(g group, self, work string, jm *jitterMon, spawnMax int64, smin in
 					o.Verdict = "pass"
 				}
 				o.Log = st.log.String()
-				if len(o.Log) > 1500 {
-					o.Log = o.Log[:1500]
-				}
 				o.Msg, o.Flags = classify(o.Log, files[i])
+				if len(o.Log) > 1500 {
+					o.Log = o.Log[:700] + "\n...\n" + o.Log[len(o.Log)-700:]
+				}
 				if o.Verdict == "fail" && o.Msg == "none" {
 					o.Msg = "other"
 				}
@@ -430,20 +531,24 @@ func runGroup(g group, self, work string, jm *jitterMon, spawnMax int64, smin in
 	}
 }
 
-// stillOurs reports whether pid is still the helper that wrote logPath.  The pid alone is
-// not enough: on a busy machine it is reused within seconds, so the command line is compared
-// (the log path is unique per script).
-func stillOurs(pid int, logPath string) bool {
+// stillOurs reports whether pid is still the helper of case id.  The pid alone is not enough:
+// on a busy machine it is reused within seconds, so the command line is compared.
+func stillOurs(pid int, sock string, id int) bool {
 	b, err := os.ReadFile(fmt.Sprintf("/proc/%d/cmdline", pid))
 	if err != nil {
 		return false
 	}
-	for _, a := range strings.Split(string(b), "\x00") {
-		if a == logPath {
-			return true
+	a := strings.Split(string(b), "\x00")
+	hasSock, hasID := false, false
+	for i := range a {
+		if a[i] == sock {
+			hasSock = true
+		}
+		if a[i] == "-id" && i+1 < len(a) && a[i+1] == strconv.Itoa(id) {
+			hasID = true
 		}
 	}
-	return false
+	return hasSock && hasID
 }
 
 func runMain(plan, traces, out, work string, par, groupSize, smin, stagger int) {
@@ -491,9 +596,10 @@ func runMain(plan, traces, out, work string, par, groupSize, smin, stagger int) 
 		groups[i].id = i
 	}
 
-	spawnMax, spawnAll := spawnBaseline(self, work, 12)
+	spawnMax, spawnAll := spawnBaseline(self, 12)
 	res.Extra["spawn_baseline_ms"] = spawnAll
 	jm := startJitter(work)
+	col := newCollector(filepath.Join(work, "sock"))
 	tw := vutil.NewNDJSONWriter(traces)
 	sem := make(chan struct{}, par)
 	var wg sync.WaitGroup
@@ -504,12 +610,13 @@ func runMain(plan, traces, out, work string, par, groupSize, smin, stagger int) 
 		go func(g group) {
 			defer wg.Done()
 			defer func() { <-sem }()
-			runGroup(g, self, work, jm, spawnMax, smin, tw, res)
+			runGroup(g, self, work, col, jm, spawnMax, smin, tw, res)
 		}(g)
 		time.Sleep(time.Duration(stagger) * time.Millisecond) // do not fork everything at the same moment
 	}
 	wg.Wait()
 	close(jm.stop)
+	col.ln.Close()
 	tw.Close()
 	res.Count("runT_calls", int64(len(groups)))
 	res.Count("scripts", int64(len(cases)))
